@@ -42,3 +42,38 @@ func VH_block_wrapper_hashes_independent_of_access_order() {
 	}
 	vReach("end")
 }
+
+// C08(3d): transaction ids survive a serialize / NewBlockFromBytes round trip at the CompactSize boundary of the
+// transaction count: blocks of 253 (thorough: 1, 252, 253, 254, 300) minimal transactions - where the count takes 1
+// resp. 3 bytes - report, for the first, a middle and the last transaction, the same txid from the wrapper built
+// from bytes as from the wire message (concrete contents: every hash is evaluated exactly).
+//verif:opts reach=end max_steps=200000000
+func VH_block_from_bytes_txids_at_count_boundary() {
+	counts := []int{253} // quick: the first count that needs a 3-byte CompactSize
+	if vTier() == 1 {
+		counts = []int{1, 252, 253, 254, 300}
+	}
+	n := counts[vNondetLen("count", len(counts)-1)]
+	mb := &wire.MsgBlock{Header: wire.BlockHeader{Version: 4, Nonce: 9}}
+	for i := 0; i < n; i++ {
+		m := wire.NewMsgTx(2)
+		var op wire.OutPoint
+		op.Hash[0], op.Hash[1] = byte(i), byte(i>>8)
+		m.AddTxIn(&wire.TxIn{PreviousOutPoint: op, Sequence: 0xffffffff})
+		m.AddTxOut(&wire.TxOut{Value: int64(i), PkScript: []byte{0x51}})
+		mb.AddTransaction(m)
+	}
+	raw, err := NewBlock(mb).Bytes()
+	vAssert(err == nil, "serialises")
+	blk, err := NewBlockFromBytes(raw)
+	vAssert(err == nil, "deserialises")
+	txs := blk.Transactions()
+	vAssert(len(txs) == n, "all transactions are wrapped")
+	for _, i := range []int{0, n / 2, n - 1} {
+		want := mb.Transactions[i].TxHash()
+		vAssert(*txs[i].Hash() == want, "the wrapper's txid equals the wire message's txid")
+		h, herr := blk.TxHash(i)
+		vAssert(herr == nil && *h == want, "Block.TxHash agrees")
+	}
+	vReach("end")
+}
